@@ -20,6 +20,12 @@ use super::*;
 use super::util::perm_for_indices;
 
 cfg_if::cfg_if! {
+    if #[cfg(all(feature = "multithread", yui_verif))] {
+        use std::cell::RefCell;
+        use yui_verif_rt::sync::RwLock;
+        use thread_local::ThreadLocal;
+        use rayon::prelude::*;
+    } else
     if #[cfg(feature = "multithread")] {
         use std::cell::RefCell;
         use std::sync::RwLock;
@@ -151,6 +157,8 @@ impl PivotFinder {
 
             if !self.pivots.has_col(j) && self.str.is_candidate(i, j) {
                 self.pivots.set(i, j);
+                #[cfg(yui_verif)]
+                yui_verif_rt::probe("pivot.commit.fl", i as u64, j as u64);
             }
         }
 
@@ -179,6 +187,8 @@ impl PivotFinder {
             ).next() else { continue };
 
             self.pivots.set(i, j);
+            #[cfg(yui_verif)]
+            yui_verif_rt::probe("pivot.commit.flcol", i as u64, j as u64);
 
             for &j in self.str.cols_in(i) { 
                 occ_cols.insert(j);
@@ -292,11 +302,21 @@ impl PivotFinder {
             let mut pivots = pivots.write().unwrap();
             w.update_diff(&loc_pivots, &pivots);
             
+            #[cfg(yui_verif)]
+            if !w.should_retry() && yui_verif_rt::buggify("pivot.spurious_retry") { 
+                loc_pivots.update_from(&pivots);
+                continue
+            }
+
             if w.should_retry() { 
+                #[cfg(yui_verif)]
+                yui_verif_rt::probe("pivot.retry", w.row as u64, j as u64);
                 loc_pivots.update_from(&pivots);
                 continue
             } else { 
                 pivots.set(w.row, j);
+                #[cfg(yui_verif)]
+                yui_verif_rt::probe("pivot.commit.par", w.row as u64, j as u64);
                 break
             }    
         }
